@@ -295,7 +295,10 @@ def check(uid, tier, seed=0, only=None, keep=False):
         'proofs': [{'id': p.id, 'kind': p.kind, 'enforced_contract': p.enforce, 'callees_replaced_by_contract': p.replace, 'status': r['status'],
                     'obligations': len(r['obligations']), 'failed': len([o for o in r['obligations'] if o['status'] != 'SUCCESS']),
                     'solver_time_s': r.get('solver_time_s'), 'backend': r['backend'], 'note': p.note,
-                    'restricted_to_known_finding': getattr(p, 'finding', None)} for p, r in zip(proofs, results)],
+                    'restricted_to_known_finding': getattr(p, 'finding', None), 'vacuity_probe': r.get('vacuity_probe')} for p, r in zip(proofs, results)],
+        'vacuity_probes': {'placed': len([r for r in results if r.get('vacuity_probe') in ('placed', 'reachable', 'lost')]),
+                           'reachable': len([r for r in results if r.get('vacuity_probe') == 'reachable']),
+                           'meaning': 'an assertion that must fail sits at the end of every harness; a run in which it is reported SUCCESS (end unreachable: contradictory requires or assumptions) is a tool error'},
         'by_backend': by_backend, 'solver_time_s': solver_time,
         'bounded_checks': bounded,
         'dropped_by_lowering': unit.get('dropped', []),
